@@ -140,7 +140,10 @@ def run(ctx):
                 ctx.check(ok, 'C04.2', f"{name}: returned abscissae are the extended grid cut by the extension count on both sides ([n:-n])",
                           show(xv, 200), st.rfa.loc(), st.rfa.qualname, 'cut')
                 yv = as_array(res.items[1])
-                if yv is not None:
+                if yv is not None and st.Y_ext is None:
+                    ctx.unknown('C04.2', f"{name}: returned values are the result array cut the same way ([n:-n])",
+                                'the strategy builds no extended result array: layout not recognised', st.rfa.loc(), st.rfa.qualname, 'cut-y')
+                elif yv is not None:
                     root = strip_state(yv)
                     atoms = [a for a in yv.r.atoms()]
                     ok = len(atoms) == 1 and sym.ATOMS.head(atoms[0]) == 'el' and sym.ATOMS.args(atoms[0])[1] == sym.idx() + n \
